@@ -206,9 +206,10 @@ func (lm *levelManager) searchLowerBound(key types.Key) (types.Entry, bool) {
 
 			// in this sstable, search according to data block
 			entry, ok := lm.fetchAndSearchLowerBound(key, level, th.levelIdx, dataBlockHandle)
-			if ok {
+			if ok && types.IsSameKey(key, entry.Key) {
 				return entry, true
 			}
+			// this sstable holds no version of the key at or below the requested one, search next one
 		}
 	}
 
